@@ -244,6 +244,38 @@ def overridePlainOK (markers : List MarkerRow) (edgeType : Bool) (p : Str × Val
 
 def isEdgeType (k : Kind) : Bool := match k with | .edge | .circle => true | _ => false
 
+/-- `0-9A-F`: the digits `RGB.tohex()` writes -/
+def upperHex (c : Char) : Bool := ('0' ≤ c ∧ c ≤ '9') || ('A' ≤ c ∧ c ≤ 'F')
+
+def Val.upperOK : Val → Bool
+  | .color h => h.all upperHex
+  | .grad hs => hs.all (·.all upperHex)
+  | _ => true
+
+def entryUpperOK (e : StyleEntry) : Bool := e.props.all fun p => p.2.upperOK
+
+/-- the last character of an id made by `_generate_id` from at least one colour -/
+def genTail (c : Char) : Bool := upperHex c || c = '_'
+
+/-- the ids inside a symbol fragment: pairwise different, none looks like a generated marker / gradient id, and only
+the fragment's own id ends in `Symbol` -/
+def rowIdsOK (r : SymbolRow) : Bool :=
+  decide r.ids.Nodup && r.ids.all fun x =>
+    (match x.getLast? with | some c => !genTail c | none => false) && x != gradName &&
+    (x == r.name || !symbolSuffix.isSuffixOf x)
+
+/-- the `Error` fragment defines nothing but its own id (it is deployed under many names) -/
+def errorIdsOK (symbols : List SymbolRow) : Bool :=
+  match findSymbol symbols errorName with
+  | some e => e.ids.all fun i => some i == e.producedId
+  | none => false
+
+/-- no two *deployed* registered symbols share an id -/
+def noClash (symbols : List SymbolRow) (topIds : List Str) : Bool :=
+  symbols.all fun r1 => symbols.all fun r2 =>
+    !(topIds.contains r1.name && topIds.contains r2.name) || r1.name == r2.name ||
+    r1.ids.all fun x => !r2.ids.contains x
+
 /-- ids defined more than once by the fragments of the symbol table -/
 def clashIds (symbols : List SymbolRow) : List Str :=
   let all := symbols.flatMap (·.ids)
